@@ -410,7 +410,7 @@ class Pair:
                 raise t.exception()
         await self.quiesce(settle)
 
-    async def quiesce(self, settle=5.0, cap=3000.0):
+    async def quiesce(self, settle=5.0, cap=1.0e6):
         """Wait (in virtual time) until nothing has happened for `settle` seconds and the link is drained."""
         world = self.world
         waited = 0.0
